@@ -66,7 +66,7 @@ def tad_pipe():
     return _pipe["tad"]
 
 
-BUILD = dict(slow_rew=G.slow_rew, regroup=G.regroup, rew_ties=G.rew_ties, fig55=G.fig55, dead=G.dead_family, cyc=G.cyc, cyc2=G.cyc2, ec=G.ec, finals=G.finals, p2choice=G.p2choice,
+BUILD = dict(paid_final=G.paid_final, orphans=G.orphans, slow_rew=G.slow_rew, regroup=G.regroup, rew_ties=G.rew_ties, fig55=G.fig55, dead=G.dead_family, cyc=G.cyc, cyc2=G.cyc2, ec=G.ec, finals=G.finals, p2choice=G.p2choice,
              lex=G.lex, ties=G.ties, ties_p2=G.ties_p2, nosol=G.nosol, unreach=G.unreach, slow_chain=G.slow_chain)
 
 
@@ -166,6 +166,8 @@ def _stopping_instances(tier):
     inst.append(("ties_p2", []))
     for w in ("p1", "p2", "pr"):
         inst.append(("unreach", [w]))
+    for o in (0, 1, 2):
+        inst.append(("orphans", [o]))
     return inst
 
 
